@@ -184,7 +184,11 @@ def calls_in(ctx, body, blocks=None):
 
 
 def call_line(body, bb):
-    return body.loc(body.blocks[bb]['t']['sp'])
+    sp = body.blocks[bb]['t']['sp']
+    if sp['f'].startswith('/') or sp.get('exp'):
+        # span inside a std macro (vec!, assert!): report the enclosing function instead
+        return body.loc()
+    return body.loc(sp)
 
 
 # ----------------------------------------------------------------- guards
